@@ -5,6 +5,7 @@ package c10
 // census (DESIGN §3.4), then the oracles of oracle_test.go.
 
 import (
+	"os"
 	"runtime"
 	"sync"
 	"time"
@@ -115,6 +116,14 @@ func (r *run) await(done <-chan outcome) awaited {
 }
 
 func execute(c *kit.Case, p plan) {
+	if os.Getenv("C10_TIMING") != "" {
+		t0 := time.Now()
+		defer func() {
+			if d := time.Since(t0); d > 100*time.Millisecond {
+				println("SLOW", d.String(), c.ID, p.API, p.Kind, p.At.String(), p.Then, p.Ctx, p.Items)
+			}
+		}()
+	}
 	r := newRun(c, c.ID, p)
 	base := runtime.NumGoroutine()
 	over := make(chan struct{})
@@ -191,7 +200,7 @@ func (r *run) notReturned(a awaited) {
 // goroutine of the call is left.
 func (r *run) census(o outcome) bool {
 	for attempt := 0; attempt < 4; attempt++ {
-		leaked, conclusive := kit.Census(r.id, 50*time.Millisecond, stableNeeded, watchdog/2)
+		leaked, conclusive := stableCensus(r.id, 50*time.Millisecond, stableNeeded, watchdog/2)
 		if !conclusive {
 			r.c.Inconclusive("census: goroutines of the call kept changing (plan " + r.planString() + ")")
 			r.releaseAll()
@@ -249,14 +258,52 @@ func firstUser(gs []kit.Goroutine) string {
 // before the run (exiting goroutines need a moment); the labelled census that
 // follows is what decides.
 func settle(base int) {
-	for i := 0; i < 3000; i++ {
-		if runtime.NumGoroutine() <= base {
+	last, unchanged := -1, 0
+	for i := 0; i < 400; i++ {
+		n := runtime.NumGoroutine()
+		if n <= base {
 			return
 		}
-		if i < 300 {
-			runtime.Gosched()
+		if n == last {
+			unchanged++
+			if unchanged > 60 {
+				return // nothing is exiting any more: let the census look
+			}
 		} else {
-			time.Sleep(20 * time.Microsecond)
+			last, unchanged = n, 0
 		}
+		runtime.Gosched()
 	}
+}
+
+// stableCensus has the semantics of kit.Census (zero labelled goroutines, or the
+// same non-empty set of stacks in `need` consecutive dumps `every` apart, else
+// inconclusive after maxWait) without its 50-dump fast path: settle() has
+// already given exiting goroutines their chance, and dumps are the expensive
+// part of a run that hits a (known) leak.
+func stableCensus(id string, every time.Duration, need int, maxWait time.Duration) ([]kit.Goroutine, bool) {
+	deadline := time.Now().Add(maxWait)
+	prev, same := "", 0
+	for i := 0; time.Now().Before(deadline); i++ {
+		gs := kit.LabelledGoroutines(id)
+		if len(gs) == 0 {
+			return nil, true
+		}
+		if fp := fingerprintOf(gs); fp == prev {
+			same++
+			if same >= need-1 {
+				return gs, true
+			}
+		} else {
+			prev, same = fp, 0
+		}
+		if i < 3 {
+			runtime.Gosched() // the first looks are close together: most stragglers are just exiting
+			time.Sleep(time.Millisecond)
+			same = 0
+			continue
+		}
+		time.Sleep(every)
+	}
+	return nil, false
 }
